@@ -38,6 +38,9 @@ def make_module(has_ioport, has_get_devices, devices, log):
                 self.closed = False
                 self._messages = []
                 log.append((kind, name, dict(kwargs)))
+
+            def close(self):
+                self.closed = True
         Port.__name__ = kind
         return Port
     m.Input, m.Output = cls('Input'), cls('Output')
